@@ -83,6 +83,14 @@ func (r *RequireModule) loadNative(path string) (*js.Object, error) {
 			if ldr == nil {
 				return nil, NoSuchBuiltInModuleError
 			}
+			name := path[len(NodePrefix):]
+			if r.r.native[name] == nil && native[name] == nil {
+				// the core module may already have been loaded under its own name
+				if module = r.nativeModules[name]; module != nil {
+					r.nativeModules[path] = module
+					return module, nil
+				}
+			}
 			withPrefix = true
 		}
 		isBuiltIn = true
